@@ -97,6 +97,15 @@ func main() {
 	out := bufio.NewWriterSize(os.NewFile(uintptr(protoFd), "proto"), 1<<20)
 
 	dvid.VerifPointFunc = gatePoint
+	// crash injection armed from the environment (needed to crash during start-up/recovery)
+	if ca := os.Getenv("VERIF_CRASH_AT"); ca != "" {
+		var n uint64
+		fmt.Sscan(ca, &n)
+		crashkv.ArmAbsolute(n, os.Getenv("VERIF_CRASH_AFTER") == "1")
+	}
+	if os.Getenv("VERIF_WTRACE") == "1" {
+		crashkv.SetTracing(true)
+	}
 	if os.Getenv("DVIDNODE_VERBOSE") == "" {
 		dvid.SetLogMode(dvid.ErrorMode)
 	}
